@@ -266,6 +266,54 @@ pub fn run(tier: &str) -> i32 {
                 }
             }
         }
+        // scoped evaluators consumed through count / nth / fold, also after some next() calls
+        {
+            let grid: Vec<usize> = (0..=1176usize).step_by(84).collect();
+            let mut nsc = 0u64;
+            for &a0 in &grid {
+                for &b0 in &grid {
+                    if b0 < a0 {
+                        continue;
+                    }
+                    let (a, b) = (pos_of(a0, &pl), pos_of(b0, &pl));
+                    let expected = off[b0] - off[a0];
+                    for k in [0usize, 1, 3] {
+                        nsc += 1;
+                        let (flop, rs) = (cfg.flop, ranges.clone());
+                        let r = catch(move || {
+                            let mut ev = FlopExhaustiveEvaluator::new(&board_opt(&flop), &rs);
+                            ev.scope(a.0, a.1, b.0, b.1);
+                            let mut it = ev.into_iter();
+                            let mut taken = 0usize;
+                            for _ in 0..k {
+                                if it.next().is_some() {
+                                    taken += 1;
+                                }
+                            }
+                            let c1 = taken + it.count();
+                            let mut ev2 = FlopExhaustiveEvaluator::new(&board_opt(&flop), &rs);
+                            ev2.scope(a.0, a.1, b.0, b.1);
+                            let mut it2 = ev2.into_iter();
+                            let mut t2 = 0usize;
+                            for _ in 0..k {
+                                if it2.next().is_some() {
+                                    t2 += 1;
+                                }
+                            }
+                            let c2 = t2 + it2.fold(0usize, |x, _| x + 1);
+                            let mut ev3 = FlopExhaustiveEvaluator::new(&board_opt(&flop), &rs);
+                            ev3.scope(a.0, a.1, b.0, b.1);
+                            let c3 = ev3.into_iter().skip(k).count() + k.min(c1);
+                            (c1, c2, c3)
+                        });
+                        if r.as_ref().ok() != Some(&(expected, expected, expected)) {
+                            rep.violation(Violation { key: format!("{} scope=({},{})->({},{}) consumers after {} next()", cfg.key(), a.0, a.1, b.0, b.1, k), sub: "scoped-consumers".into(), case: json!({"config": cfg.to_json(), "scopes": [[a.0, a.1, b.0, b.1]], "next_calls_first": k}), expected: json!({"showdowns": expected}), observed: json!(format!("{:?} (count, fold, skip+count)", r)) });
+                        }
+                    }
+                }
+            }
+            rep.sub("scoped-consumers", "scoped evaluators over a 15-point grid of windows consumed through count(), fold and skip().count(), fresh and after 1 and 3 next() calls: the same number of showdowns as the window holds", nsc, nsc, false, json!({"config": cfg.key()}));
+        }
         rep.sub("repeated-scope", "scope(a) followed by scope(b) behaves like scope(b) alone: all ordered pairs of 12 windows", nrep, nrep, false, json!({"config": cfg.key()}));
     }
     rep.bound(if thorough { "configurations: 4 (one player/one combo; two players x two combos with flop-blocked and mutually blocking combos; two further flops)" } else { "configurations: one player, one combo (thorough adds three more, with player-vs-player blocking and other flops)" });
